@@ -191,12 +191,16 @@ class PVLEncoder(object):
 
         prefix = level * (self.indent * " ")
 
-        if len(prefix + s + self.newline) > self.width and "=" in s:
-            (preq, _, posteq) = s.partition("=")
+        (preq, _, posteq) = s.partition("=")
+
+        if (
+            len(prefix + s + self.newline) > self.width
+            and posteq.strip() != ""
+        ):
             new_prefix = prefix + preq.strip() + " = "
 
             lines = textwrap.wrap(
-                posteq.strip(),
+                self._protect_whitespace(posteq.strip()),
                 width=(self.width - len(self.newline)),
                 replace_whitespace=False,
                 initial_indent=new_prefix,
@@ -204,9 +208,46 @@ class PVLEncoder(object):
                 break_long_words=False,
                 break_on_hyphens=False,
             )
-            return self.newline.join(lines)
+            return self._restore_whitespace(self.newline.join(lines))
         else:
             return prefix + s
+
+    # White space inside a quoted string or a units expression is part of
+    # the value, so a line may not be broken (nor a tab expanded) there.
+    # While wrapping, such characters are swapped for private-use stand-ins.
+    _ws_standins = {c: chr(0xF000 + ord(c)) for c in " \t\n\r\v\f"}
+
+    def _wrappable_quotes(self) -> tuple:
+        """Quote characters of strings inside which lines may be broken."""
+        return tuple()
+
+    def _protect_whitespace(self, s: str) -> str:
+        if any(c in s for c in self._ws_standins.values()):
+            return s
+
+        out = list()
+        end = None  # the character that ends the current quoted/units text
+        prev = None
+        for c in s:
+            if end is None:
+                if c in self.grammar.quotes and c not in self._wrappable_quotes():
+                    end = c
+                elif c == self.grammar.units_delimiters[0]:
+                    end = self.grammar.units_delimiters[1]
+                # A line may not end right after a dash either, that would
+                # read back as a dash-continuation.
+                out.append(self._ws_standins.get(c, c) if prev == "-" else c)
+            else:
+                if c == end:
+                    end = None
+                out.append(self._ws_standins.get(c, c))
+            prev = c
+        return "".join(out)
+
+    def _restore_whitespace(self, s: str) -> str:
+        for (c, standin) in self._ws_standins.items():
+            s = s.replace(standin, c)
+        return s
 
     def encode(self, module: abc.Mapping) -> str:
         """Returns a ``str`` formatted as a PVL document based
@@ -583,6 +624,11 @@ class ODLEncoder(PVLEncoder):
         """
         s = super().encode(module)
         return s + self.newline
+
+    def _wrappable_quotes(self) -> tuple:
+        # ODL Text Strings (double-quoted) are re-folded on reading, so
+        # lines may be broken inside them; Symbol Strings must stay on a line.
+        return ('"',)
 
     def is_scalar(self, value) -> bool:
         """Returns a boolean indicating whether the *value* object
